@@ -992,6 +992,21 @@ func axisOf(v ssa.Value) (kind string, axis int, ok bool) {
 	case *ssa.Call:
 		if x.Call.IsInvoke() && x.Call.Method.Name() == "Value" && len(x.Call.Args) == 1 {
 			if k, isK := constInt(x.Call.Args[0]); isK {
+				// blockSize.Value(k) of a dvid.Point parameter or local named like a block size
+				recv := stripConv(x.Call.Value)
+				if ld, isLd := recv.(*ssa.UnOp); isLd && ld.Op == token.MUL {
+					recv = ld.X
+				}
+				switch y := recv.(type) {
+				case *ssa.Parameter:
+					if isBlockSizeName(y.Name()) {
+						return "bs", int(k), true
+					}
+				case *ssa.Alloc:
+					if isBlockSizeName(y.Comment) {
+						return "bs", int(k), true
+					}
+				}
 				return "pt", int(k), true
 			}
 		}
@@ -1002,6 +1017,11 @@ func axisOf(v ssa.Value) (kind string, axis int, ok bool) {
 		}
 	}
 	return "", 0, false
+}
+
+func isBlockSizeName(n string) bool {
+	n = strings.ToLower(n)
+	return strings.Contains(n, "blocksize") || strings.Contains(n, "chunksize") || n == "blksize"
 }
 
 func axisOfIndexed(base ssa.Value, k int) (string, int, bool) {
@@ -1026,10 +1046,7 @@ func axisOfIndexed(base ssa.Value, k int) (string, int, bool) {
 		}
 	}
 	// a parameter or local named like a block size (spilled parameters are allocs with the parameter's name)
-	isBSName := func(n string) bool {
-		n = strings.ToLower(n)
-		return strings.Contains(n, "blocksize") || strings.Contains(n, "chunksize") || n == "blksize"
-	}
+	isBSName := isBlockSizeName
 	switch y := b.(type) {
 	case *ssa.Parameter:
 		if isBSName(y.Name()) {
